@@ -125,6 +125,8 @@ def real_run(model, init, limit, files, base, api, options=None):
         options = WatchedOptions()
     options.update({'globals': g, 'logFn': logs.append, 'maxStatements': limit, 'fetchFn': fs,
                     'urlFn': functools.partial(url_file_relative, base)})
+    if limit is None:
+        options.pop('maxStatements', None)
     start = len(options.sink)
     try:
         with core.alarm(30):
@@ -233,6 +235,13 @@ def check_program(text, files, base, init, acc, api, case):
             if N is not None and L >= N and any(real[k] != unlimited[k] for k in ('r', 'logs', 'globals', 'count')):
                 acc.violation('limit-above-N-changes-run', f'L={L} N={N}\n{text}', c)
                 return
+    if terminates and unlimited is not None:
+        # the default limit (key absent) is far above any generated program: identical to the unlimited run
+        dflt = real_run(model, init, None, files, base, api)
+        acc.count('default_limit_runs')
+        if dflt is not None and any(dflt[k] != unlimited[k] for k in ('r', 'logs', 'globals', 'count')):
+            acc.violation('default-limit-changes-run', f'without maxStatements: {dflt["r"]!r:.200} vs unlimited {unlimited["r"]!r:.200}\n{text}', dict(case, limit=None))
+            return
     if len(acc.samples) < 2 and N and N >= 10 and files:
         acc.sample({'program': text.split('\n')[:30], 'files': {k: v.split('\n')[:8] for k, v in files.items()}, 'N': N, 'limits_tried': len(limits), 'aborts': aborts})
 
